@@ -1,9 +1,85 @@
 (* C13 - rename detection only re-pairs changes and never misses identical content.
    Only statements closed by [exact] and their assumptions; the proofs are in
-   theories/Plumbing/RenamesProofs.v and RenamesChan.v. *)
-From Coq Require Import List ZArith NArith Permutation.
-From Herc Require Import Plumbing.Renames.
+   theories/Plumbing/RenamesProofs.v and theories/Plumbing/RenamesChan.v.
+
+   Quantified in every theorem about [consume] (the model of RenameAnalysis.Consume):
+     sort_hash, sort_size  sort.Sort of Go's standard library; assumed: returns a permutation, and (for
+                           C13_exact) no later element is Less than an earlier one when Less is a strict
+                           total order on the elements - which C13_less_total proves for 20-byte hashes;
+     cand_order            sortRenameCandidates (sort.Slice by Levenshtein distance): ANY function;
+     blobs_close           blobsAreClose (diffmatchpatch / bsdiff similarity): ANY predicate;
+     thr0                  the configured similarity threshold: any integer;
+     winner_b              which goroutine's result the final select takes: any;
+     cut_a, cut_b          after how many outer-loop iterations the timeout stops matchA / matchB: any. *)
+From Coq Require Import List ZArith NArith Bool Permutation Sorting.Sorted.
+From Herc Require Import Plumbing.Renames Plumbing.RenamesProofs Plumbing.RenamesChan.
 Import ListNotations.
+
+(* ---- the output is a re-pairing of the input ---- *)
+Theorem C13_repairing :
+  forall (sort_hash sort_size : list entry -> list entry)
+         (cand_order : entry -> list (nat * entry) -> list nat)
+         (blobs_close : entry -> entry -> bool),
+  (forall l, Permutation (sort_hash l) l) ->
+  (forall l, Permutation (sort_size l) l) ->
+  forall (thr0 : Z) (winner_b : bool) (cut_a cut_b : nat) (cs out : list (option entry * option entry)),
+  consume sort_hash sort_size cand_order blobs_close thr0 winner_b cut_a cut_b cs = Ok out ->
+  exists rest,
+    (* every modification passes through unchanged; the rest ... *)
+    Permutation out (mods cs ++ rest) /\
+    (* ... holds every deleted entry exactly once, as a deletion or as the source of a rename, *)
+    Permutation (froms rest) (dels cs) /\
+    (* every added entry exactly once, as an addition or as the target of a rename, *)
+    Permutation (tos rest) (adds cs) /\
+    (* and nothing else *)
+    Forall (fun c => nonempty c = true) rest.
+Proof. exact consume_repairing. Qed.
+Print Assumptions C13_repairing.
+
+(* Consume returns an error exactly on a malformed change (both sides empty, go-git's Action() fails) and
+   never panics when sortRenameCandidates only reorders the candidates it is given *)
+Theorem C13_total :
+  forall (sort_hash sort_size : list entry -> list entry)
+         (cand_order : entry -> list (nat * entry) -> list nat)
+         (blobs_close : entry -> entry -> bool),
+  (forall me l a, In a (cand_order me l) -> In a (map fst l)) ->
+  forall (thr0 : Z) (winner_b : bool) (cut_a cut_b : nat) (cs : list (option entry * option entry)),
+  consume sort_hash sort_size cand_order blobs_close thr0 winner_b cut_a cut_b cs <> Panic /\
+  (consume sort_hash sort_size cand_order blobs_close thr0 winner_b cut_a cut_b cs = Err <-> malformed cs = true).
+Proof.
+  intros sh ss co bc H thr0 w ca cb cs. split.
+  - exact (consume_no_panic sh ss co bc H thr0 w ca cb cs).
+  - exact (consume_err_iff sh ss co bc thr0 w ca cb cs).
+Qed.
+Print Assumptions C13_total.
+
+(* ---- identical content is never missed ---- *)
+Theorem C13_exact :
+  forall (sort_hash sort_size : list entry -> list entry)
+         (cand_order : entry -> list (nat * entry) -> list nat)
+         (blobs_close : entry -> entry -> bool),
+  (forall l, Permutation (sort_hash l) l) ->
+  (forall l, Permutation (sort_size l) l) ->
+  (forall l, (forall e, In e l -> length (e_hash e) = 20%nat) ->
+             StronglySorted (fun x y => less (e_hash y) (e_hash x) = false) (sort_hash l)) ->
+  forall (thr0 : Z) (winner_b : bool) (cut_a cut_b : nat) (cs out : list (option entry * option entry)),
+  (forall e, In e (adds cs) -> length (e_hash e) = 20%nat) /\
+  (forall e, In e (dels cs) -> length (e_hash e) = 20%nat) ->
+  consume sort_hash sort_size cand_order blobs_close thr0 winner_b cut_a cut_b cs = Ok out ->
+  forall h : list N,
+    (* renames whose two sides both carry h = modifications that keep h + min(#added h, #deleted h) *)
+    count_same h out =
+    (count_same h (mods cs) + Nat.min (count_hash h (adds cs)) (count_hash h (dels cs)))%nat.
+Proof. exact consume_exact. Qed.
+Print Assumptions C13_exact.
+
+(* ---- the comparison of stage 1 ---- *)
+Theorem C13_less_total :
+  (forall a, less a a = false) /\
+  (forall a b c, less a b = true -> less b c = true -> less a c = true) /\
+  (forall a b, length a = 20%nat -> length b = 20%nat -> less a b = false -> less b a = false -> a = b).
+Proof. exact less_strict_total. Qed.
+Print Assumptions C13_less_total.
 
 (* The comparison before the repair (defect F4, fixed in /repo by "fix: sortableChange.Less was not a
    strict order") was not asymmetric: two hashes each "less" than the other. *)
@@ -13,3 +89,135 @@ Proof.
   exists (1 :: 0 :: repeat 0 18)%N, (0 :: 1 :: repeat 0 18)%N. vm_compute. repeat split.
 Qed.
 Print Assumptions C13_old_less_not_total.
+
+(* ... and with it the merge scan missed identical content: one added and one deleted file with the same
+   hash, a second deleted file; the deletions in an order that insertion sort leaves alone under the old
+   comparison (each of the two hashes is "less" than the other); no exact rename is found, whereas the
+   repaired comparison finds it *)
+Example C13_old_less_misses_identical :
+  let h0 := (1 :: 0 :: repeat 0 18)%N in
+  let h1 := (0 :: 1 :: repeat 0 18)%N in
+  let added := [mkEntry 0 h0 0] in
+  let deleted := [mkEntry 42 h1 1; mkEntry 41 h0 0] in
+  isort_by (fun x y => old_less (e_hash x) (e_hash y)) deleted = [mkEntry 42 h1 1; mkEntry 41 h0 0] /\
+  scan_with old_less 3 added (isort_by (fun x y => old_less (e_hash x) (e_hash y)) deleted)
+    = ([], added, [mkEntry 42 h1 1; mkEntry 41 h0 0]) /\
+  scan_with less 3 (isort_by lt_hash added) (isort_by lt_hash deleted)
+    = ([(mkEntry 41 h0 0, mkEntry 0 h0 0)], [], [mkEntry 42 h1 1]).
+Proof. vm_compute. repeat split. Qed.
+
+(* ---- the channel protocol of the two goroutines (error-free: blobsAreClose has no error return) ---- *)
+
+(* every run is finite ... *)
+Theorem C13_runs_finite : forall can_err r s, is_run can_err s r -> (length r <= measure s)%nat.
+Proof. exact run_bounded. Qed.
+Print Assumptions C13_runs_finite.
+
+(* ... and every maximal run ends with main holding a result that was really published and both
+   goroutines returned: no deadlock *)
+Theorem C13_no_deadlock : forall na nb r,
+  is_run false (init na nb) r -> next false (last r (init na nb)) = [] ->
+  final_ok (last r (init na nb)) = true.
+Proof. exact maximal_run_ok. Qed.
+Print Assumptions C13_no_deadlock.
+
+(* the "Impossible happened" branch of the final select is unreachable: a result is always available *)
+Theorem C13_result_available : forall na nb s, reach false (init na nb) s -> mn s <> Impossible.
+Proof. exact impossible_unreachable. Qed.
+Print Assumptions C13_result_available.
+
+(* both outcomes of the race exist, so the winner is a genuine choice (what C13_repairing quantifies over) *)
+Theorem C13_both_winners : forall na nb,
+  (exists s, reach false (init na nb) s /\ mn s = ResA) /\
+  (exists s, reach false (init na nb) s /\ mn s = ResB).
+Proof. exact both_winners. Qed.
+Print Assumptions C13_both_winners.
+
+(* latent: were blobsAreClose ever to return an error, the goroutine would block on the unbuffered errs
+   channel while main blocks in wg.Wait *)
+Theorem C13_errs_would_deadlock : exists s, reach true (init 1 1) s /\ next true s = [] /\ mn s = Wait.
+Proof. exact errs_would_deadlock. Qed.
+Print Assumptions C13_errs_would_deadlock.
+
+(* ---- the executable oracles that judge the implementation's output are sound ---- *)
+Theorem C13_repairing_oracle_sound : forall inp out, repairing_b inp out = true ->
+  exists rest, Permutation out (mods inp ++ rest) /\ Permutation (froms rest) (dels inp) /\
+               Permutation (tos rest) (adds inp) /\ Forall (fun c => nonempty c = true) rest.
+Proof. exact repairing_b_sound. Qed.
+Print Assumptions C13_repairing_oracle_sound.
+
+Theorem C13_exact_oracle_sound : forall inp out, exact_b inp out = true ->
+  forall h, count_same h out =
+            (count_same h (mods inp) + Nat.min (count_hash h (adds inp)) (count_hash h (dels inp)))%nat.
+Proof. exact exact_b_sound. Qed.
+Print Assumptions C13_exact_oracle_sound.
+
+(* ---- non-vacuity ---- *)
+(* the assumptions on sort.Sort are satisfiable (insertion sort, which is what sort.Sort runs on up to
+   12 elements, has them) *)
+Example C13_sort_assumptions_satisfiable :
+  (forall l, Permutation (isort_by lt_hash l) l) /\
+  (forall l, Permutation (isort_by lt_size l) l) /\
+  (forall l, (forall e, In e l -> length (e_hash e) = 20%nat) ->
+             StronglySorted (fun x y => less (e_hash y) (e_hash x) = false) (isort_by lt_hash l)).
+Proof.
+  split; [exact (isort_by_perm lt_hash)|]. split; [exact (isort_by_perm lt_size)|].
+  intros l _. exact (isort_hash_sorted l).
+Qed.
+
+(* a concrete run: two modifications, one exact rename (two deleted and one added file with hash hA), one
+   similarity rename found by matchA, one small file, leftovers; both oracles accept the model's output
+   and reject an output that drops the leftover deletion *)
+Definition ex_hash (k : N) : list N := k :: (255 - k)%N :: repeat 7%N 18.
+Definition ex_input : list (option entry * option entry) :=
+  [ (Some (mkEntry 1 (ex_hash 1) 100), Some (mkEntry 1 (ex_hash 2) 120));     (* modify 1 *)
+    (None, Some (mkEntry 2 (ex_hash 9) 10));                                   (* add 2, hash 9, small *)
+    (Some (mkEntry 3 (ex_hash 9) 10), None);                                   (* delete 3, hash 9 *)
+    (Some (mkEntry 4 (ex_hash 9) 10), None);                                   (* delete 4, hash 9 *)
+    (Some (mkEntry 5 (ex_hash 3) 200), None);                                  (* delete 5, 200 bytes *)
+    (None, Some (mkEntry 6 (ex_hash 4) 210));                                  (* add 6, 210 bytes *)
+    (None, Some (mkEntry 7 (ex_hash 5) 10));                                   (* add 7, small *)
+    (Some (mkEntry 8 (ex_hash 6) 8), Some (mkEntry 8 (ex_hash 6) 8)) ].        (* modify 8, same content *)
+Definition ex_run (winner_b : bool) (cut : nat) :=
+  consume (isort_by lt_hash) (isort_by lt_size) (fun _ l => map fst l) (fun _ _ => true) 80 winner_b cut cut ex_input.
+
+Example C13_example_run :
+  ex_run false 5 = Ok
+    [ (Some (mkEntry 1 (ex_hash 1) 100), Some (mkEntry 1 (ex_hash 2) 120));
+      (Some (mkEntry 8 (ex_hash 6) 8), Some (mkEntry 8 (ex_hash 6) 8));
+      (Some (mkEntry 4 (ex_hash 9) 10), Some (mkEntry 2 (ex_hash 9) 10));      (* exact rename *)
+      (Some (mkEntry 5 (ex_hash 3) 200), Some (mkEntry 6 (ex_hash 4) 210));    (* similarity rename *)
+      (None, Some (mkEntry 7 (ex_hash 5) 10));
+      (Some (mkEntry 3 (ex_hash 9) 10), None) ] /\
+  (* a timeout before the first iteration: no similarity rename, still a re-pairing with the exact rename *)
+  ex_run true 0 = Ok
+    [ (Some (mkEntry 1 (ex_hash 1) 100), Some (mkEntry 1 (ex_hash 2) 120));
+      (Some (mkEntry 8 (ex_hash 6) 8), Some (mkEntry 8 (ex_hash 6) 8));
+      (Some (mkEntry 4 (ex_hash 9) 10), Some (mkEntry 2 (ex_hash 9) 10));
+      (None, Some (mkEntry 6 (ex_hash 4) 210));
+      (Some (mkEntry 5 (ex_hash 3) 200), None);
+      (None, Some (mkEntry 7 (ex_hash 5) 10));
+      (Some (mkEntry 3 (ex_hash 9) 10), None) ] /\
+  wf_hashes_b ex_input = true /\
+  (forall w c, In w [true; false] -> In c [0; 1; 5]%nat ->
+     match ex_run w c with Ok out => repairing_b ex_input out && exact_b ex_input out | _ => false end = true) /\
+  (* the oracles are not trivially true *)
+  repairing_b ex_input (removelast (match ex_run true 0 with Ok out => out | _ => [] end)) = false /\
+  exact_b ex_input [ (Some (mkEntry 3 (ex_hash 9) 10), None); (None, Some (mkEntry 2 (ex_hash 9) 10)) ] = false.
+Proof.
+  split; [vm_compute; reflexivity|]. split; [vm_compute; reflexivity|]. split; [vm_compute; reflexivity|].
+  split.
+  - intros w c [<-|[<-|[]]] [<-|[<-|[<-|[]]]]; vm_compute; reflexivity.
+  - split; vm_compute; reflexivity.
+Qed.
+
+(* the protocol: a maximal run in which matchB is interrupted and matchA's result is taken *)
+Example C13_example_protocol_run :
+  let r := [ mkSt (Run 0) (Run 2) 0 false false Wait;   (* matchA's loop ends *)
+             mkSt Pub (Run 2) 0 true false Wait;        (* finishedA <- true *)
+             mkSt DoneP (Run 2) 1 true false Wait;      (* deferred finished <- true; wg.Done *)
+             mkSt DoneP Intr 0 true false Wait;         (* matchB: case <-finished: return *)
+             mkSt DoneP DoneI 1 true false Wait;        (* deferred finished <- true; wg.Done *)
+             mkSt DoneP DoneI 1 false false ResA ] in   (* wg.Wait returns; select takes finishedA *)
+  is_run false (init 1 2) r /\ next false (last r (init 1 2)) = [] /\ final_ok (last r (init 1 2)) = true.
+Proof. vm_compute. intuition. Qed.
